@@ -28,6 +28,7 @@ func init() {
 		FreshProcess: true,
 		Rule: "built with -race. Each round takes one module (parsed from the corpus or constructed through the API, with unnamed globals, locals and unassigned metadata IDs), in never-printed or already-printed state, and lets N in {2,4,16} goroutines (GOMAXPROCS 2 or 16) start on a barrier and call String/WriteTo/Func.LLString/Block.LLString/Global.LLString/Type/Ident/String on it, while the Yield hooks inside AssignIDs/AssignGlobalIDs/AssignMetadataIDs/WriteTo/Func.LLString inject PRNG Gosched/sleeps; every returned text is compared with a separately built twin printed sequentially (in the fresh scenario only after the first concurrent round, which starts 16 whole-module printers at once: each case runs in its own process, so the first printing activity of the process is concurrent and process-level state initialised by a first print is not warmed up beforehand), and every race-detector report is a violation (de-duplicated by the pair of top llir/llvm frames). " +
 			"Scenario literal: a never-printed module whose function, globals, alias and constant expression are built as struct literals (empty Typ caches), whole-module printers only. " +
+			"The constructed module also holds extended-precision constants (x86_fp80, fp128, ppc_fp128, half), a metadata list out of ID order, declarations without linkage and named struct-literal instructions used as typed operands. " +
 			"non-trivial = a round in which at least two printers were inside a print call at the same time (witnessed by the harness' activity counter); distinct by (module, state, N, round)",
 		Gen:           genC13,
 		MinNontrivial: 50,
@@ -94,6 +95,17 @@ func c13BuildLiteral() *ir.Module {
 	a := &ir.Alias{Aliasee: g}
 	a.SetName("a")
 	m.Aliases = append(m.Aliases, a)
+	// named and unnamed instructions built as struct literals, used as typed
+	// operands (the numbering pass fills their type caches under the function's lock)
+	body := m.NewFunc("body", types.I32, ir.NewParam("x", types.I32))
+	entry := body.NewBlock("entry")
+	named := &ir.InstAdd{X: body.Params[0], Y: constant.NewInt(types.I32, 1)}
+	named.SetName("s")
+	unnamed := &ir.InstMul{X: named, Y: named}
+	sel := &ir.InstSelect{Cond: constant.True, ValueTrue: unnamed, ValueFalse: named}
+	sel.SetName("t")
+	entry.Insts = append(entry.Insts, named, unnamed, sel)
+	entry.NewRet(sel)
 	return m
 }
 
@@ -118,6 +130,9 @@ func c13Build(seed int64) *ir.Module {
 	m.NewGlobalDef("quad", constant.NewFloat(types.FP128, -2.25))
 	m.NewGlobalDef("", constant.NewFloat(types.PPC_FP128, 3.0))
 	m.NewGlobalDef("hlf", constant.NewFloat(types.Half, 0.333251953125))
+	// declarations created without linkage (printed as external)
+	m.NewGlobal("decl", i32)
+	m.NewGlobal("", types.I8Ptr)
 	m.NamedMetadataDefs["nm"] = &metadata.NamedDef{Name: "nm", Nodes: []metadata.Node{md2, md0}}
 	nf := 2 + rng.Intn(3)
 	for k := 0; k < nf; k++ {
